@@ -296,6 +296,12 @@ theorem calcMerkleRoot_spec (vtx : List Tx) (hne : vtx ≠ []) (hr : ∀ t ∈ v
   have hb : buildTreeFromTxs vtx = .ok tree := by simp [buildTreeFromTxs, hm, ht]
   exact ⟨tree, r, hb, hl, by simp [calcMerkleRoot, hlen, hb, hl], hs⟩
 
+/-- the model's `has_witness` loop (`not wit.is_null()`) decides the wire format's "some stack is
+    non-empty" -/
+theorem any_hasWitness (vtx : List Tx) :
+    vtx.any (fun t => !witIsNull t.wit) = vtx.any (·.hasWitness) := by
+  congr 1; funext t; exact (Tx.hasWitness_eq_not_witIsNull t).symm
+
 /-- `build_witness_merkle_tree_from_txs`: NoWitnessData exactly when no transaction has witness
     data; otherwise a non-empty tree whose last node is the BIP141 witness root -/
 theorem buildWitnessTree_spec (vtx : List Tx) (hr : ∀ t ∈ vtx, TxRange t) :
@@ -306,8 +312,10 @@ theorem buildWitnessTree_spec (vtx : List Tx) (hr : ∀ t ∈ vtx, TxRange t) :
   have hm := mapM_ok getHash Spec.Merkle.wtxid vtx (fun t ht => getHash_ok t (hr t ht))
   constructor
   · intro hw
+    rw [← any_hasWitness] at hw
     simp [buildWitnessTree, hm, hw]
   · intro hw
+    rw [← any_hasWitness] at hw
     match vtx, hw, hm with
     | cb :: rest, hw, hm =>
       obtain ⟨tree, r, ht, hl, hs⟩ := root_spec (zero32 :: rest.map Spec.Merkle.wtxid) (by simp)
